@@ -1,7 +1,8 @@
 // C19.p: the roll-back protocol of the calculator base classes alone.
-//   ACalculator::run (real try/catch), ACalcDbToDb::_check/_preprocess/_addVariableDb/
-//   _storeInVariableList/_cleanVariableDb  (entry k_proto_dbtodb)
-//   ACalcDbVarCreator::_addVariableDb/_storeInVariableList/_cleanVariableDb (entry k_proto_varcreator)
+//   k_proto_dbtodb:     ACalculator::run (real try/catch), ACalcDbToDb::_check/_preprocess/
+//                       _addVariableDb/_storeInVariableList/_cleanVariableDb/_whichDb
+//   k_proto_varcreator: ACalculator::run, ACalcDbVarCreator::_addVariableDb/_storeInVariableList/
+//                       _cleanVariableDb
 // driven by a minimal calculator defined here whose stages create variables through the real
 // _addVariableDb (data base, permanent/temporary status and number under symbolic choice) and
 // fail - by returning false or by throwing - under symbolic bits.  The minimal calculator follows
@@ -9,7 +10,6 @@
 // _postprocess frees the temporaries, _rollback frees both lists.
 // -DVF_ROLLBACK_PERM_ONLY=1: _rollback frees the permanent list only (the idiom used by every
 // calculator of the library) - used to show the checks are not vacuous and to pin S12.
-#define G_NDIM_NAMES 1
 #include "ghost.h"
 #include "Calculators/ACalcDbToDb.hpp"
 #include "Calculators/ACalcDbVarCreator.hpp"
@@ -17,93 +17,58 @@
 #ifndef VF_NRUN
 #define VF_NRUN 1
 #endif
+#ifndef VF_NPRE
+#define VF_NPRE 3
+#endif
 #ifndef VF_ROLLBACK_PERM_ONLY
 #define VF_ROLLBACK_PERM_ONLY 0
 #endif
 
 // ---- opaque strings / messages
 void throw_exp(const std::string& msg, const std::string& file, int line) { throw AException(std::string()); }
-void NamingConvention::setNamesAndLocators(const Db* dbin, const VectorString& names, const ELoc& locatorInType,
-                                           int nvar, Db* dbout, int iattout_start, const String& qualifier,
-                                           int nitems, bool flagSetLocator, int locatorShift) const
-{
-  Ghost& g = gh(dbout);
-  for (int i = 0; i < nvar * nitems; i++) g_touch(g, iattout_start + i);
-}
-
-// ---- ghost data bases: raw storage, vptr of a harness class whose virtuals answer from the ghost
-class GhostDb: public Db
-{
-public:
-  virtual bool isGrid() const override;
-  virtual int getNDim() const override;
-};
-bool GhostDb::isGrid() const { return gh(this).grid; }
-int GhostDb::getNDim() const { return gh(this).ndim; }
-extern "C" char vt_GhostDb[] asm("_ZTV7GhostDb");
 
 alignas(16) static char dbbuf[2][sizeof(GhostDb)];
 
-static void ghost_setup(int npre_in, int npre_out)
+// arbitrary prior content: VF_NPRE identifiers were issued in each data base, any subset is still
+// alive, roles arbitrary (one column per (type, rank), ranks of a type contiguous from 0)
+static void ghost_setup()
 {
   ghost_enums();
   for (int w = 0; w < 2; w++)
   {
     g_db[w] = (Db*)dbbuf[w];
     *(void**)dbbuf[w] = (void*)(vt_GhostDb + 16);
-    Ghost& g = G[w];
-    int npre = (w == 0) ? npre_in : npre_out;
     for (int i = 0; i < G_MAXID; i++)
     {
-      g.live[i] = false;
-      g.loc[i] = G_NONE;
-      g.rank[i] = 0;
-      g.touched[i] = false;
+      g_live[w][i] = 0;
+      g_loc[w][i] = G_NONE;
+      g_rank[w][i] = 0;
+      g_touched[w][i] = 0;
     }
-    // arbitrary prior content: npre identifiers were issued, any subset still alive, any roles
-    for (int i = 0; i < npre; i++)
+    for (int i = 0; i < VF_NPRE; i++)
     {
-      g.live[i] = vf_nondet_bool();
-      if (g.live[i] && vf_nondet_bool())
-      {
-        int t = vf_range(0, 3);
-        g.loc[i] = (t == 0) ? 0 : (t == 1) ? 1 : (t == 2) ? 3 : 22; // X, Z, F, SIMU
-        g.rank[i] = vf_range(0, 1);
-        for (int j = 0; j < i; j++) vf_assume(!(g.live[j] && g.loc[j] == g.loc[i] && g.rank[j] == g.rank[i]));
-      }
+      bool live = vf_nondet_bool();
+      bool role = vf_nondet_bool();
+      int t = vf_range(0, 3);
+      int r = vf_range(0, 1);
+      g_live[w][i] = live ? 1 : 0;
+      bool lr = live ? role : false;
+      g_loc[w][i] = lr ? ((t == 0) ? 0 : (t == 1) ? 1 : (t == 2) ? 3 : 22) : G_NONE; // X, Z, F, SIMU
+      g_rank[w][i] = lr ? r : 0;
     }
-    g.next = npre;
-    g.ndim = vf_range(0, 3);
-    g.grid = vf_nondet_bool();
-    g.baddel = false;
+    for (int i = 0; i < VF_NPRE; i++)
+      for (int j = 0; j < i; j++)
+        vf_assume(g_loc[w][i] < 0 || g_loc[w][j] != g_loc[w][i] || g_rank[w][j] != g_rank[w][i]);
+    for (int i = 0; i < VF_NPRE; i++)
+      vf_assume(g_loc[w][i] < 0 || g_rank[w][i] == 0 || g_find(w, g_loc[w][i], 0) >= 0);
+    g_next[w] = VF_NPRE;
+    g_ndim[w] = vf_range(0, 3);
+    g_grid[w] = vf_nondet_bool() ? 1 : 0;
+    g_baddel[w] = 0;
   }
-}
-static void ghost_snapshot()
-{
-  for (int w = 0; w < 2; w++)
-  {
-    for (int i = 0; i < G_MAXID; i++) G[w].touched[i] = false;
-    G[w].baddel = false;
-    PRE[w] = G[w];
-  }
-}
-// data base w is exactly as at the snapshot
-static bool ghost_same(int w)
-{
-  bool ok = !G[w].baddel;
-  for (int i = 0; i < G_MAXID; i++)
-  {
-    if (G[w].live[i] != PRE[w].live[i]) ok = false;
-    if (PRE[w].live[i] && G[w].live[i])
-    {
-      if (G[w].loc[i] != PRE[w].loc[i] || G[w].rank[i] != PRE[w].rank[i]) ok = false;
-      if (G[w].touched[i]) ok = false;
-    }
-  }
-  return ok;
 }
 
-// ---- the schedule: what a stage does
+// ---- the schedule: what a stage does (drawn up front)
 struct Stage
 {
   bool add1, add2; // create 1 variable / 2 more variables
@@ -114,21 +79,45 @@ static void pick(Stage& s, bool twoDb)
 {
   s.add1 = vf_nondet_bool();
   s.add2 = vf_nondet_bool();
-  s.which1 = twoDb ? vf_range(1, 2) : 1;
-  s.which2 = twoDb ? vf_range(1, 2) : 1;
+  int w1 = vf_range(1, 2), w2 = vf_range(1, 2);
+  s.which1 = twoDb ? w1 : 1;
+  s.which2 = twoDb ? w2 : 1;
   s.status1 = vf_range(1, 2);
   s.status2 = vf_range(1, 2);
   s.fail = vf_nondet_bool();
   s.thrw = vf_nondet_bool();
 }
-// documented outputs = what was registered as permanent in a successful run
-static bool perm[2][G_MAXID];
-static bool temp[2][G_MAXID];
+// what the calculator registered: permanent = its documented outputs, temporary = scratch
+static int perm[2][G_MAXID];
+static int temp[2][G_MAXID];
 static void note(int which, int status, int iuid, int n)
 {
-  if (iuid < 0) return;
-  for (int i = 0; i < n; i++)
-    if (iuid + i < G_MAXID) (status == 1 ? perm : temp)[which - 1][iuid + i] = true;
+  for (int i = 0; i < G_MAXID; i++)
+  {
+    bool in = (iuid >= 0) ? ((i >= iuid) ? (i < iuid + n) : false) : false;
+    perm[which - 1][i] = (in ? (status == 1) : false) ? 1 : perm[which - 1][i];
+    temp[which - 1][i] = (in ? (status != 1) : false) ? 1 : temp[which - 1][i];
+  }
+}
+static void check_success(int w)
+{
+  bool ids = (g_baddel[w] == 0), tmp = true;
+  for (int i = 0; i < G_MAXID; i++)
+  {
+    bool want = (p_live[w][i] != 0) ? true : (perm[w][i] != 0);
+    ids = ((g_live[w][i] != 0) == want) ? ids : false;
+    tmp = ((temp[w][i] != 0) ? (g_live[w][i] != 0) : false) ? false : tmp;
+  }
+  vf_assert_id(ids, "success: live identifiers == previous ones + the variables registered as permanent");
+  vf_assert_id(tmp, "success: no temporary variable is left");
+  vf_assert_id(ghost_same_roles(w), "success: roles of pre-existing columns unchanged");
+  vf_assert_id(ghost_untouched(w), "success: contents of pre-existing columns untouched");
+}
+static void check_failure(int w)
+{
+  vf_assert_id(ghost_same_ids(w), w == 0 ? "failure: dbin has exactly the identifiers it had" : "failure: dbout has exactly the identifiers it had");
+  vf_assert_id(ghost_same_roles(w), w == 0 ? "failure: roles in dbin unchanged" : "failure: roles in dbout unchanged");
+  vf_assert_id(ghost_untouched(w), w == 0 ? "failure: contents of dbin untouched" : "failure: contents of dbout untouched");
 }
 
 // =========================================================== ACalcDbToDb
@@ -148,15 +137,17 @@ bool MiniCalc::stage(const Stage& s)
 {
   if (s.add1)
   {
-    int id = _addVariableDb(s.which1, s.status1, ELoc::UNKNOWN, 0, 1, 0.);
+    int id = (s.which1 == 1) ? _addVariableDb(1, s.status1, ELoc::UNKNOWN, 0, 1, 0.)
+                             : _addVariableDb(2, s.status1, ELoc::UNKNOWN, 0, 1, 0.);
     if (id < 0) return false;
-    note(s.which1, s.status1, id, 1);
+    if (s.which1 == 1) note(1, s.status1, id, 1); else note(2, s.status1, id, 1);
   }
   if (s.add2)
   {
-    int id = _addVariableDb(s.which2, s.status2, ELoc::UNKNOWN, 0, 2, 0.);
+    int id = (s.which2 == 1) ? _addVariableDb(1, s.status2, ELoc::UNKNOWN, 0, 2, 0.)
+                             : _addVariableDb(2, s.status2, ELoc::UNKNOWN, 0, 2, 0.);
     if (id < 0) return false;
-    note(s.which2, s.status2, id, 2);
+    if (s.which2 == 1) note(1, s.status2, id, 2); else note(2, s.status2, id, 2);
   }
   if (s.fail)
   {
@@ -197,7 +188,7 @@ extern "C" char vt_MiniCalc[] asm("_ZTV8MiniCalc");
 
 extern "C" void k_proto_dbtodb()
 {
-  ghost_setup(VF_NPRE, VF_NPRE);
+  ghost_setup();
   alignas(16) static char cb[sizeof(MiniCalc)];
   MiniCalc* c = (MiniCalc*)cb;
   *(void**)cb = (void*)(vt_MiniCalc + 16);
@@ -205,6 +196,11 @@ extern "C" void k_proto_dbtodb()
   new (&c->_listVariablePermDbOut) VectorInt();
   new (&c->_listVariableTempDbIn) VectorInt();
   new (&c->_listVariableTempDbOut) VectorInt();
+  // capacity is not observable: reserving keeps the heap layout independent of the path taken
+  c->_listVariablePermDbIn.reserve(8);
+  c->_listVariablePermDbOut.reserve(8);
+  c->_listVariableTempDbIn.reserve(8);
+  c->_listVariableTempDbOut.reserve(8);
   c->_mustShareSpaceDimension = vf_nondet_bool();
   c->_ndim = 0;
   c->_nvar = 0;
@@ -215,7 +211,7 @@ extern "C" void k_proto_dbtodb()
   {
     ghost_snapshot();
     for (int w = 0; w < 2; w++)
-      for (int i = 0; i < G_MAXID; i++) perm[w][i] = temp[w][i] = false;
+      for (int i = 0; i < G_MAXID; i++) perm[w][i] = temp[w][i] = 0;
     pick(c->pre, true);
     pick(c->run_, true);
     c->failCheck = vf_nondet_bool();
@@ -230,27 +226,112 @@ extern "C" void k_proto_dbtodb()
     {
       vf_assert_id(c->_listVariablePermDbIn.empty() && c->_listVariablePermDbOut.empty(),
                    "failure: permanent bookkeeping lists are empty");
-      vf_assert_id(ghost_same(0), "failure: dbin is exactly as before (live identifiers, roles, contents)");
-      vf_assert_id(ghost_same(1), "failure: dbout is exactly as before (live identifiers, roles, contents)");
+      check_failure(0);
+      check_failure(1);
     }
     else
     {
-      for (int w = 0; w < 2; w++)
-      {
-        bool ids = !G[w].baddel, tmp = true, oldroles = true;
-        for (int i = 0; i < G_MAXID; i++)
-        {
-          if (G[w].live[i] != (PRE[w].live[i] || perm[w][i])) ids = false;
-          if (temp[w][i] && G[w].live[i]) tmp = false;
-          if (PRE[w].live[i] && G[w].live[i] && G[w].touched[i]) oldroles = false;
-        }
-        vf_assert_id(ids, "success: live identifiers == previous ones + the variables registered as permanent");
-        vf_assert_id(tmp, "success: no temporary variable is left");
-        vf_assert_id(oldroles, "success: contents of pre-existing columns untouched");
-      }
-      // a successful calculator keeps its outputs: forget them before the next run
+      check_success(0);
+      check_success(1);
+      // a successful calculator keeps its outputs: a new calculation starts with empty lists
       c->_listVariablePermDbIn.clear();
       c->_listVariablePermDbOut.clear();
+    }
+  }
+  vf_witness();
+}
+
+// =========================================================== ACalcDbVarCreator
+class MiniVar: public ACalcDbVarCreator
+{
+public:
+  Stage pre, run_;
+  bool failCheck, failPost, throwPost;
+  virtual bool _check() override;
+  virtual bool _preprocess() override;
+  virtual bool _run() override;
+  virtual bool _postprocess() override;
+  virtual void _rollback() override;
+  bool stage(const Stage& s);
+};
+bool MiniVar::stage(const Stage& s)
+{
+  if (s.add1)
+  {
+    int id = _addVariableDb(s.status1, ELoc::UNKNOWN, 0, 1, 0.);
+    if (id < 0) return false;
+    note(1, s.status1, id, 1);
+  }
+  if (s.add2)
+  {
+    int id = _addVariableDb(s.status2, ELoc::UNKNOWN, 0, 2, 0.);
+    if (id < 0) return false;
+    note(1, s.status2, id, 2);
+  }
+  if (s.fail)
+  {
+    if (s.thrw) my_throw("stage");
+    return false;
+  }
+  return true;
+}
+bool MiniVar::_check() { return !failCheck; }
+bool MiniVar::_preprocess() { return stage(pre); }
+bool MiniVar::_run() { return stage(run_); }
+bool MiniVar::_postprocess()
+{
+  _cleanVariableDb(2);
+  if (failPost)
+  {
+    if (throwPost) my_throw("post");
+    return false;
+  }
+  return true;
+}
+void MiniVar::_rollback()
+{
+  _cleanVariableDb(1);
+#if !VF_ROLLBACK_PERM_ONLY
+  _cleanVariableDb(2);
+#endif
+}
+extern "C" char vt_MiniVar[] asm("_ZTV7MiniVar");
+
+extern "C" void k_proto_varcreator()
+{
+  ghost_setup();
+  alignas(16) static char cb[sizeof(MiniVar)];
+  MiniVar* c = (MiniVar*)cb;
+  *(void**)cb = (void*)(vt_MiniVar + 16);
+  new (&c->_listVariablePermDb) VectorInt();
+  new (&c->_listVariableTempDb) VectorInt();
+  c->_listVariablePermDb.reserve(8);
+  c->_listVariableTempDb.reserve(8);
+  c->_db = g_db[0];
+
+  for (int r = 0; r < VF_NRUN; r++)
+  {
+    ghost_snapshot();
+    for (int w = 0; w < 2; w++)
+      for (int i = 0; i < G_MAXID; i++) perm[w][i] = temp[w][i] = 0;
+    pick(c->pre, false);
+    pick(c->run_, false);
+    c->failCheck = vf_nondet_bool();
+    c->failPost = vf_nondet_bool();
+    c->throwPost = vf_nondet_bool();
+
+    bool ok = c->run();
+
+    vf_assert_id(c->_listVariableTempDb.empty(), "temporary bookkeeping list is empty after run()");
+    if (!ok)
+    {
+      vf_assert_id(c->_listVariablePermDb.empty(), "failure: permanent bookkeeping list is empty");
+      check_failure(0);
+    }
+    else
+    {
+      check_success(0);
+      c->_listVariablePermDb.clear();
     }
   }
   vf_witness();
